@@ -11,6 +11,28 @@ def in_bounds(step, xl, xu):
     return bool(np.all(np.minimum(xl, 0.0) <= step) and np.all(step <= np.maximum(xu, 0.0)))
 
 
+def cauchy_step(g, H, xl, xu, delta):
+    """The Cauchy step along the projected gradient: d = -g on the components that are not blocked by a bound active at the origin;
+    minimise q(a d) over 0 <= a <= min(first bound met, trust-region radius).  Returns (decrease, step) or (None, None) when the
+    segment is unbounded below (cannot happen with a finite radius)."""
+    xl = np.minimum(xl, 0.0)
+    xu = np.maximum(xu, 0.0)
+    free = ((xl < 0) | (g < 0)) & ((xu > 0) | (g > 0))
+    d = np.where(free, -g, 0.0)
+    if not np.any(d):
+        return 0.0, np.zeros_like(g)
+    with np.errstate(divide="ignore", invalid="ignore"):
+        ab = np.where(d > 0, xu / d, np.where(d < 0, xl / d, np.inf))
+    a = min(float(np.min(ab[free])), float(delta / np.linalg.norm(d)))
+    gd, curv = g @ d, d @ H @ d
+    if curv > 0:
+        a = min(a, -gd / curv)
+    if not np.isfinite(a):
+        return None, None
+    p = a * d
+    return -(g @ p + 0.5 * p @ H @ p), p
+
+
 def tangential(d):
     from cobyqa.subsolvers import tangential_byrd_omojokun
     hp = lambda v: d["H"] @ v
@@ -20,6 +42,18 @@ def tangential(d):
     yield "C15.tangential.step_within_bounds", in_bounds(s, d["xl"], d["xu"]) and not np.any(np.isnan(s))
     yield "C15.tangential.norm_within_radius", bool(np.linalg.norm(s) <= tolstep(d["delta"]))
     yield "C16.tangential.model_not_increased", bool(q <= 1e-12 * scale + 1e-300)
+    # "at least the decrease of the projected-gradient Cauchy step" (up to rounding, relative to the size of the terms of q there)
+    cd, p = cauchy_step(d["grad"], d["H"], d["xl"], d["xu"], d["delta"])
+    if p is not None and np.all(np.isfinite(p)):
+        g = d["grad"]
+        sc = np.abs(g) @ np.abs(p) + 0.5 * np.abs(p) @ np.abs(d["H"]) @ np.abs(p)
+        ok = bool(-q >= cd - 1e-9 * sc - 1e-300)
+        xl, xu = np.minimum(d["xl"], 0.0), np.maximum(d["xu"], 0.0)
+        free = ((xl < 0) | (g < 0)) & ((xu > 0) | (g > 0))
+        # the solver's first test treats the projected gradient as zero when |g_free|^2 <= 10 EPS n max(1, |g|): an ABSOLUTE threshold
+        # for |g| < 1.  Cases below it are reported under their own name (known finding F1: zero step although a decrease exists)
+        tiny = float(g[free] @ g[free]) <= 10.0 * np.finfo(float).eps * g.size * max(1.0, float(np.linalg.norm(g)))
+        yield ("C16.tangential.cauchy_decrease_below_absolute_gradient_threshold" if tiny else "C16.tangential.cauchy_decrease"), ok
 
 
 def constrained_tangential(d):
